@@ -84,6 +84,63 @@ def toleratedFix (g : Gene) (p : Params) (q : CParams) (rp : ReadProf) (I : IsoI
   missedExonTolerated (cmpCtxOf g p q) I.introns || fakeTerminalWithin g p rp I i ||
   terminalMisalignmentClass (cmpCtxOf g p q) rp.introns rp.region I.introns I.region i
 
+/-! ### the read's END seen by `compare_junctions`: nothing re-interprets a tail there (Props/C01Tail.lean, `EndGeom`)
+
+Position-only conditions under which the comparator can NOT emit `fake_terminal_exon_*` or `terminal_exon_misalignment_*`
+at one end of the read (`Lemmas/C01CmpEnd.lean: compareJunctions_clean_right / _left`, for ALL inputs):
+ (1) the read's outermost exon at that end is longer than `max_fake_terminal_exon_len` (spliced reads);
+ (2) for reads with at least two introns: the read's and the isoform's outermost exons at that end differ in length by at
+     least 2δ (otherwise a displaced terminal exon may be called `terminal_exon_misalignment_*`: the known finding
+     `terminal_exon_misalignment_far` lives exactly there).
+(The third end artifact, `incomplete_intron_retention_*`, needs no condition: it is itself a major inconsistency.) -/
+
+def endCleanRight (p : Params) (rj : List Iv) (rr : Iv) (ij : List Iv) (ir : Iv) : Bool :=
+  (rj.isEmpty || decide (p.max_fake_terminal_exon_len < lastExonLen rr rj)) &&
+  (decide (rj.length ≤ 1) || ij.isEmpty || decide (2 * p.delta ≤ iabs (lastExonLen rr rj - lastExonLen ir ij)))
+
+def endCleanLeft (p : Params) (rj : List Iv) (rr : Iv) (ij : List Iv) (ir : Iv) : Bool :=
+  (rj.isEmpty || decide (p.max_fake_terminal_exon_len < firstExonLen rr rj)) &&
+  (decide (rj.length ≤ 1) || ij.isEmpty || decide (2 * p.delta ≤ iabs (firstExonLen rr rj - firstExonLen ir ij)))
+
+/-! ### Boolean forms of the hypotheses of `Props/C01Tail.lean: tail_far_never_consistent_geom` (driver / oracle) -/
+
+/-- Boolean form of `TailBeyond` -/
+def tailBeyondB (d stop ext int : Int) : Bool :=
+  (decide (ext ≠ -1) || decide (int ≠ -1)) && (decide (ext = -1) || decide (d < iabs (stop - ext))) &&
+  (decide (int = -1) || decide (d < iabs (stop - int)))
+
+/-- Boolean form of `LongTerminal` -/
+def longTerminalB (p : Params) (iso : List Iv) (front : Bool) : Bool :=
+  (List.range iso.length).all (fun c => c == 0 ||
+    (decide (p.max_fake_terminal_exon_len <
+        intervalsTotalLength (if front then iso.take c else iso.drop (iso.length - c))) &&
+     decide (p.max_missed_exon_len <
+        intervalsTotalLength (if front then iso.take c else iso.drop (iso.length - c)))))
+
+/-- Boolean form of `TailFar` -/
+def tailFarB (p : Params) (rp : ReadProf) (I : IsoInfo) : Bool :=
+  match I.strand with
+  | .plus =>
+    match I.exons.getLast? with
+    | some l => tailBeyondB p.apa_delta l.2 rp.polya.extA rp.polya.intA && longTerminalB p I.exons false
+    | none => false
+  | .minus =>
+    match I.exons.head? with
+    | some f => tailBeyondB p.apa_delta f.1 rp.polya.extT rp.polya.intT && longTerminalB p I.exons true
+    | none => false
+  | .other => false
+
+/-- Boolean form of `EndGeom` -/
+def endGeomB (p : Params) (rp : ReadProf) (I : IsoInfo) : Bool :=
+  match I.strand with
+  | .plus => endCleanRight p rp.introns rp.region I.introns I.region
+  | .minus => endCleanLeft p rp.introns rp.region I.introns I.region
+  | .other => true
+
+/-- all hypotheses of `tail_far_never_consistent_geom` about one read and its gene -/
+def tailClauseHyp (g : Gene) (p : Params) (rp : ReadProf) : Bool :=
+  !rp.blocks.isEmpty && g.isos.all (fun I => tailFarB p rp I && endGeomB p rp I)
+
 /-- Boolean form of `ChainsWF` (used by the driver / the oracle to decide the domain of the theorems) -/
 def chainsWFb (δ : Int) (rj : List Iv) (rr : Iv) (ij : List Iv) (ir : Iv) : Bool :=
   decide (0 ≤ δ) && decide (SD rj) && decide (SD ij) &&
